@@ -37,9 +37,11 @@ def rebin(a, newshape):
     '''
     assert len(a.shape) == len(newshape)
 
-    slices = [slice(0, old, float(old) / new)
-              for old, new in zip(a.shape, newshape)]
-    coordinates = np.mgrid[slices]
+    # new points per axis at multiples of old / new (a float-step mgrid may
+    # return new + 1 of them, depending on how old / (old / new) rounds)
+    steps = [float(old) / new for old, new in zip(a.shape, newshape)]
+    coordinates = np.indices(newshape) * \
+        np.reshape(steps, (-1,) + (1,) * len(newshape))
     # choose the biggest smaller integer index
     indices = coordinates.astype('i')
     return a[tuple(indices)]
